@@ -132,8 +132,8 @@ class MailboxLiveness(MailboxMonitor):
 def jobs(tier):
     js = []
     delays = [(None, None), (0, 0), (1, 0), (0, 1), (1, 1), (2, 1), (1, 2)] if tier == "quick" else \
-        [(None, None)] + [(a, b) for a in range(3) for b in range(3)]
-    K = 14 if tier == "quick" else 24
+        [(None, None)] + [(a, b) for a in range(4) for b in range(4)]
+    K = 14 if tier == "quick" else 30
     for (txd, rxd), ctxs in itertools.product(delays, (2, 1)):
         if ctxs == 1 and (txd or rxd):
             continue  # delays are meant for two different contexts
